@@ -318,4 +318,81 @@ def run(tier="quick", replay=None):
     R.check(ok, "R12.adopt", "R12.adopt|next-state-is-transition", site,
             "auto: self.step is assigned from the transition just computed on every path to the return",
             "CldbRun::step does not store the transition it just computed as the next state on every path (%s)" % why, fn=STEP)
+    # ---------------- R12.pair -------------------------------------------------------------------
+    # A row is opened when an operator is about to be applied (Op with no arguments left: `in_expr = true`) and closed by
+    # the next OpResult, whose value is printed as the row's Value.  Operators the stepping evaluator finishes WITHOUT an
+    # OpResult of their own (apply continues as a Step, `i` as a Done) leave the row open, so the next OpResult - the
+    # result of some inner sub-expression or path lookup - is reported as their Value.  Necessary for faithful rows:
+    # either the Step transition closes the pending row (clears in_expr on every path of its arm), or the OpResult arm
+    # decides on the result's parent (OpResult.2) whether the result belongs to the open row.
+    adt = prog.adts.get("compiler::clvm::RunStep")
+    vidx = {v["name"]: i for i, v in enumerate(adt["variants"])} if adt else {}
+    step_entry = None
+    for bb, b in enumerate(f.blocks):
+        t = b["t"]
+        if t["k"] != "switch" or b.get("cleanup") or "Step" not in vidx:
+            continue
+        dl = op_local(t["discr"])
+        if dl is None:
+            continue
+        is_runstep_discr = False
+        for _, _, st in f.stmts():
+            if st["pl"]["l"] == dl and st["rv"]["k"] == "discr":
+                pp = st["rv"]["pl"]["p"]
+                if any(isinstance(e, dict) and e.get("dc") == "Ok" for e in pp) and not any(isinstance(e, dict) and e.get("dc") in vidx for e in pp):
+                    is_runstep_discr = True
+        if is_runstep_discr:
+            arms = dict((v, tgt) for v, tgt in t["arms"])
+            step_entry = arms.get(vidx["Step"], t["otherwise"])
+    clear_blocks = [bb for bb, _, st in f.stmts() if is_self_field(st["pl"], SELF, "in_expr") and st["rv"]["k"] == "use"
+                    and st["rv"]["op"]["k"] == "const" and not is_true(st["rv"]["op"])]
+    closes = step_entry is not None and bool(clear_blocks) and must_pass(f, step_entry, rets, clear_blocks)
+    # alternative: the OpResult arm looks at the result's parent
+    uses_parent = False
+    for bb, b in enumerate(f.blocks):
+        t = b["t"]
+        ops = []
+        if t["k"] == "switch":
+            ops = [t["discr"]]
+        elif t["k"] == "call":
+            ops = list(t["args"])
+        for o in ops:
+            l = op_local(o)
+            if l is not None and ("OpResult", "2") in downcast_fields(f, fl, l):
+                uses_parent = True
+    if step_entry is None:
+        R.viol("R12.pair", "R12.pair|anchor-lost|Step-arm", site, "anchor lost: the match on the RunStep transition in CldbRun::step", fn=STEP)
+    else:
+        R.check(closes or uses_parent, "R12.pair", "R12.pair|open-row-closed-by-own-result", f.loc(step_entry),
+                "auto: a row left open by an operator that finishes without its own OpResult is %s" % (
+                    "closed on the Step transition" if closes else "matched against the result's parent"),
+                "a row opened for an operator that the stepping evaluator finishes without an OpResult of its own (apply, which "
+                "continues as a Step; `i`) stays open: CldbRun::step neither clears in_expr on the Step transition nor looks at the "
+                "result's parent, so the next OpResult - an inner sub-expression or path lookup - is printed as that operator's "
+                "Value (a row that is not true of the consensus evaluator)", fn=STEP)
+    # ---------------- R12.hex ---------------------------------------------------------------------
+    # hex-supplied programs are turned into the rich form the debugger steps; atoms must come from the crate's one
+    # CLVM->rich converter (convert_from_clvm_rs, whose choices preserve the bytes) - a second, local way of building
+    # leaves from allocator bytes is an unchecked conversion (reported even if it happened to be right)
+    HEX = "compiler::cldb::hex_to_modern_sexp"
+    CONV = "compiler::clvm::convert_from_clvm_rs"
+    fam = [g for g in prog.fns.values() if g.path.startswith(HEX)]
+    if not fam:
+        R.viol("R12.hex", "R12.hex|anchor-lost", "compiler::cldb", "anchor lost: hex_to_modern_sexp")
+    else:
+        nconv = sum(1 for g in fam for _, t in g.calls() if callee_of(t) == CONV)
+        R.floor("R12.hex", "leaf conversions through convert_from_clvm_rs", nconv, 1, "%s:%s" % (fam[0].file, fam[0].line))
+        for g in fam:
+            gfl = Flow(g)
+            for bb, _, st in g.stmts():
+                rv = st["rv"]
+                if rv["k"] == "agg" and "sexp::SExp" in rv.get("adt", "") and rv.get("variant") in ("Integer", "Atom", "QuotedString"):
+                    payload = op_local(rv["ops"][-1])
+                    from_alloc = payload is not None and gfl.derives_from_call(
+                        payload, lambda c: c.endswith("Allocator::atom") or c.endswith("Allocator::node") or c.endswith("Allocator::number"))
+                    R.check(not from_alloc, "R12.hex", "R12.hex|local-leaf|%s" % rv.get("variant"), "%s:%s" % (g.file, st.get("line", g.line)),
+                            "auto: leaf is not built from allocator bytes locally",
+                            "%s builds an SExp::%s directly from the allocator's atom bytes instead of converting the atom with "
+                            "convert_from_clvm_rs: redundant sign/zero bytes are renormalised, so a hex-supplied program is not the "
+                            "program its source form denotes" % (g.path, rv.get("variant")), fn=g.path)
     return R.finalize()
